@@ -3,7 +3,7 @@
    model Model/RegTable.v (reg_init mirrors register_init step by step and is tied to it by correspondence over the layout grid).
    The post-state is proved for plain tables (all areas memory-backed and default-loading); for tables with callback-backed, read-only
    or skip-defaults areas it is correspondence-tested only. *)
-From Ufw Require Import Base.Bits Model.RegTable Proof.RegLemmas Proof.RegInitLemmas Proof.RegInvariant Proof.RegMemory Proof.RegBlockInv Proof.RegInitInv Proof.RegInitZero.
+From Ufw Require Import Base.Bits Model.RegTable Proof.RegLemmas Proof.RegInitLemmas Proof.RegInvariant Proof.RegMemory Proof.RegBlockInv Proof.RegInitInv Proof.RegInitZero Proof.RegLink.
 Local Open Scope N_scope.
 
 (* initialisation succeeds exactly when there is an area, the areas and the entries are each ordered and disjoint (every element starts at or behind the end of its predecessor), and the defaults load *)
@@ -126,6 +126,36 @@ Theorem C04_post_state_other_words_zero :
          forall x w : N, word_at t' x = Some w -> (forall e : entry, In e (t_entries t) -> ~ covers e x) -> w = 0.
 Proof. exact (@init_other_words_zero). Qed.
 Print Assumptions C04_post_state_other_words_zero.
+
+(* post-state, third part: the first / last / count fields of every area describe exactly the registers whose address lies in the area, a contiguous run of the register list *)
+Theorem C04_post_state_area_fields :
+  forall t t' : table,
+         reg_init t = (ISuccess, 0, t') ->
+         forall a' : area,
+         In a' (t_areas t') ->
+         a_count a' = N.of_nat (length (filter (fun e : entry => addr_in_area a' (e_addr e)) (t_entries t'))) /\
+         (a_count a' <> 0 -> a_last a' + 1 = a_first a' + a_count a') /\
+         (forall (j : nat) (e : entry),
+          nth_error (t_entries t') j = Some e ->
+          addr_in_area a' (e_addr e) = true <-> a_count a' <> 0 /\ a_first a' <= N.of_nat j <= a_last a').
+Proof. exact (@init_area_fields). Qed.
+Print Assumptions C04_post_state_area_fields.
+
+(* the same for the linking step alone, any ordered register list and any area *)
+Theorem C04_link_fields_spec :
+  forall (es : list entry) (a : area),
+         match es with
+         | [] => True
+         | e0 :: er => chain e_addr (fun e : entry => tsize (e_type e)) e0 er
+         end ->
+         let a' := link_area es a in
+         a_count a' = N.of_nat (length (filter (fun e : entry => addr_in_area a (e_addr e)) es)) /\
+         (a_count a' <> 0 -> a_last a' + 1 = a_first a' + a_count a') /\
+         (forall (j : nat) (e : entry),
+          nth_error es j = Some e ->
+          addr_in_area a (e_addr e) = true <-> a_count a' <> 0 /\ a_first a' <= N.of_nat j <= a_last a').
+Proof. exact (@link_area_spec). Qed.
+Print Assumptions C04_link_fields_spec.
 
 (* a failed initialisation leaves the table uninitialised *)
 Theorem C04_failure_uninitialised :
